@@ -47,8 +47,10 @@ def permutationIndices (d : EnumData) (trialCount component : Nat) : Except PyEr
     | .ok none => .error .typeError          -- (Python would iterate over an int)
     | .error e => .error e
 
-/-- one component per crossing instance (`true`) or one per trial (`false`) -/
-def perInstance (d : EnumData) (trialCount : Nat) : Bool := decide (trialCount = d.q) && d.unweighted
+/-- one component per crossing instance (`true`) or one per trial (`false`):
+    `_one_source_choice_per_instance` — a whole unweighted round of plain permutations -/
+def perInstance (d : EnumData) (trialCount : Nat) : Bool :=
+  decide (trialCount = d.q) && d.unweighted && d.simplePerm
 
 def listGet (l : List Nat) (i : Nat) : Except PyErr Nat :=
   match l[i]? with
@@ -121,7 +123,7 @@ def crossingsShape (d : EnumData) (firstN : Nat) : Nat :=
 def countSolutions (d : EnumData) (firstN : Nat) : Except PyErr Nat := do
   let perms := crossingsShape d firstN
   let withSources ←
-    if decide (firstN = d.q) && d.unweighted then .ok (perms * prodList (shapes d))
+    if perInstance d firstN then .ok (perms * prodList (shapes d))
     else sumCombinationProducts d perms firstN
   return d.indLevels.foldl (fun acc nlev => acc * nlev ^ firstN) withSources
 
